@@ -25,6 +25,8 @@ func verif_prev[T any](x T) T { return x }
 func verif_forall(f any) bool
 func verif_exists(f any) bool
 func verif_fresh(p any) bool
+func verif_allocated(p any) bool
+func verif_base(s any) int
 func verif_istype[T any](x any) bool { _, ok := x.(T); return ok }
 func verif_fst[A, B any](a A, b B) A { return a }
 func verif_snd[A, B any](a A, b B) B { return b }
@@ -413,7 +415,7 @@ func (e *Engine) prepareRepoPackage(rel string, overlay map[string][]byte) error
 		post := strings.Join(parts, ", ")
 		c.SynParams = names
 		sf := getSyn(c.SrcFile)
-		for _, cl := range append(append([]*Clause{}, c.Requires...), c.Givens...) {
+		for _, cl := range append(append(append([]*Clause{}, c.Requires...), c.Givens...), c.Assumes...) {
 			if err := e.genClause(sf, cl, pre); err != nil {
 				return err
 			}
